@@ -336,5 +336,29 @@ class SymSet:
     def concrete_members(self):
         return [u for u in self.universe if bool(self.member[u])]
 
+    def update(self, *others):
+        """set.update with concrete elements: they are members from now on"""
+        from .sym import SymBool
+        import z3
+        for other in others:
+            for x in other:
+                if x not in self.member:
+                    self.universe.append(x)
+                self.member[x] = SymBool(z3.BoolVal(True)) if not isinstance(self.member.get(x, None), bool) else True
+
+    def add(self, x):
+        self.update([x])
+
+    def intersection(self, *others):
+        """set.intersection: decided element by element on this path (a plain set)"""
+        out = None
+        for other in others:
+            cur = {x for x in other if x in self}
+            out = cur if out is None else (out & cur)
+        return set(self) if out is None else out
+
+    def issuperset(self, other):
+        return all(x in self for x in other)
+
     def __deepcopy__(self, memo):
         return self
